@@ -178,7 +178,7 @@ pub fn run(cfg: Cfg, t: &Tables, ops: &[Op], plan: &Plan, seen: &Mutex<HashSet<u
     let log = sut.sess.take_log();
     // ---- crash images of the whole history against the acknowledgement windows
     let ob = Obligations::from_path(&keys, &all_ops, &fr.outs, &snapshots, &log, cfg.ttl, false);
-    let opts = CrashOpts { sector_tear: false, reopen_cycles: 0, nest: 0, now: model.now, probe_auto_ts: false };
+    let opts = CrashOpts { sector_tear: false, reopen_cycles: 0, nest: 0, now: model.now, probe_auto_ts: false, continue_after: false };
     let ctx = hash64(&[format!("{:?}{:?}", ob.hists, ob.acks.iter().map(|a| &a.1).collect::<Vec<_>>()).as_bytes()]);
     let (st, findings) = crash::check_history(&cfg, &base, &log, &ob, 0, &opts, seen, ctx);
     fr.images = st.images;
